@@ -42,12 +42,18 @@ ASSUMPTIONS = [
 @st.composite
 def cases(draw, d):
     doc = draw(gt.documents(d))
-    if draw(st.booleans()):
+    how = draw(st.integers(0, 5))
+    if how < 3:
         text = gt.canonical_text(doc)
         layout = "canonical"
-    else:
+    elif how < 5:
         text = gt.seeded_layout(doc, d, draw(st.integers(0, 2 ** 32)), "light")
         layout = "light-whitespace"
+    else:
+        # well-formed text has comments too (C04 owns the layout space; here one
+        # commented layout in six keeps the grammar positions honest)
+        text = gt.seeded_layout(doc, d, draw(st.integers(0, 2 ** 32)), "full")
+        layout = "with-comments"
     return dict(dialect=d, text=text, expected=doc["expected"], layout=layout,
                 kinds=sorted({t[1] for t in doc["tokens"]}),
                 feats=features(doc))
